@@ -399,7 +399,7 @@ fn c10_read_n_pool_request() {
 }
 
 //@ prop: C10
-//@ tier: thorough
+//@ tier: quick
 //@ timeout: 1200
 //@ what: read_n with a pool ReadBuf, completion side: a completion carrying buffer id and n >= left bytes resolves with exactly that pool buffer holding the n bytes (no spurious UnexpectedEof); n < left continues
 //@ bound: pool 2x4 bytes; buffer id, n (1..=4), left (1..=4) symbolic
